@@ -277,7 +277,8 @@ impl<const K: usize> AffTree<K> {
                 let mut skipped_children = 0;
                 let mut label_created = None;
 
-                for edg in lhs.tree.children(parent0_idx) {
+                let n_children = lhs.tree.num_children(parent0_idx);
+                for (pos, edg) in lhs.tree.children(parent0_idx).enumerate() {
                     let child0_idx = edg.target_idx;
                     let child0 = edg.target_value;
                     let label = edg.label;
@@ -299,8 +300,11 @@ impl<const K: usize> AffTree<K> {
                         .add_child_node(parent1_idx, label, AffContent::new(child1_aff))
                         .unwrap();
 
-                    // Test feasibility of newly created edge, remove if infeasible
-                    if C::explore(rhs, parent1_idx, child1_idx) {
+                    // Test feasibility of newly created edge, remove if infeasible.
+                    // The last child is kept when all its siblings were removed: a decision
+                    // without children would be read as a terminal node.
+                    let keep_last = created_children == 0 && pos + 1 == n_children;
+                    if keep_last || C::explore(rhs, parent1_idx, child1_idx) {
                         stack.push((child0_idx, child1_idx));
                         created_children += 1;
                         n_nodes += 1;
